@@ -8,8 +8,9 @@ import (
 )
 
 // OrderedMap is what `range m` over a map is rewritten to (rule R6) when the key type has a
-// canonical rendering: inside a simulation the entries are visited in sorted key order, so that
-// Go's randomised map iteration cannot make two runs of one tape differ. Any iteration order is
+// canonical rendering: inside a simulation the entries are visited in an order derived from the
+// sorted keys and a decision of the tape, so that Go's randomised map iteration cannot make two
+// runs of one tape differ. Any iteration order is
 // a legal order for the original program; entries deleted before they are reached are skipped and
 // values are read when reached, as for a native range.
 func OrderedMap[M ~map[K]V, K comparable, V any](m M) iter.Seq2[K, V] {
@@ -31,6 +32,25 @@ func OrderedMap[M ~map[K]V, K comparable, V any](m M) iter.Seq2[K, V] {
 			keys = append(keys, ks{k, keyString(k)})
 		}
 		sort.Slice(keys, func(i, j int) bool { return keys[i].s < keys[j].s })
+		// Which of the legal orders? The runtime would pick a random start; here the schedule
+		// stream of the tape picks a rotation of the sorted order and its direction (0 = sorted),
+		// so that code whose outcome depends on the iteration order is explored, replayably.
+		if s := cur.Load(); s != nil && !s.cfg.FixedStrategy && !s.stopFlag.Load() && s.lookup(false) != nil {
+			n := len(keys)
+			c := s.Choose(Schedule, 2*n, "map-order")
+			rot, rev := c%n, c >= n
+			if rot != 0 || rev {
+				re := make([]ks, 0, n)
+				for i := 0; i < n; i++ {
+					j := (rot + i) % n
+					if rev {
+						j = ((rot-i)%n + n) % n
+					}
+					re = append(re, keys[j])
+				}
+				keys = re
+			}
+		}
 		for _, e := range keys {
 			v, ok := m[e.k]
 			if !ok {
